@@ -603,12 +603,15 @@ def r8_shared_objects(ctx):
     counts something other than chunks, makes the result depend on the execution configuration."""
     from . import c03, c04, c08
     ctx.rule("C01.R8", "state cannot flow between tasks through shared objects: learners occurring in several triples are deep-copied (C03.R1/R2), "
-                       "no environment filter keeps cross-read state (C04.R2: ProcessTasks peeks and abandons reads), the per-child limit counts "
+                       "no environment filter keeps cross-read state (C04.R2: ProcessTasks peeks and abandons reads) or trains a learner it holds "
+                       "(C04.R7), process-global scratch state is cleared at the start of every evaluation (C03.R5), the per-child limit counts "
                        "input chunks before the filter (C08.R5)")
     sub = type(ctx)(ctx.model, ctx.prop, ctx.tier, silent=True)
     c03.r1_copy_reaches_evaluate(sub)
     c03.r2_copy_flag(sub)
     c04.r2_cross_read_state(sub, c04.family(sub))
+    c04.r7_held_learners(sub, c04.family(sub), rule="C01.R8")   # a filter that trains the object it holds behaves differently on a re-read (in-process) than on a fresh pickle (worker)
+    c03.r5_shared_state(sub)                                     # process-global scratch state (learning_info) is cleared at the start of every evaluation
     c08.ROLES = c08.Roles(sub.fn(c08.PMP, "Multiprocessor.filter"))
     c08.r5_limit(sub, sub.fn(c08.PMP, "Multiprocessor.filter"))
     for o in sub.obs:
